@@ -254,3 +254,16 @@ var _ = digest.SpecHashSlot // spec functions used by the contracts below
 //@   ensures the_resume_record_reaches_furthest_into_the_stream: result2 == nil && result0 != nil ==> result0.EndOffset >= latestMax
 //@   loop 2:
 //@     invariant best_so_far: (best != nil ==> best.EndOffset >= latestMax) && (best == nil ==> latestMax == 0 - 9223372036854775809) && recordCount >= 0
+
+// ---- two records in one hash (an interrupted re-keying leaves the old id's record beside the new
+// ---- one): the position is the record that reaches furthest, never a mixture and never the one
+// ---- whose fields happen to come last (C07, C17)
+//@ func furthestCheckpoint
+//@   arith int
+//@   properties C07 C17
+//@   replay syncer_staleOldIdRecord@syncer
+//@   requires nonnil: first != nil && second != nil
+//@   modifies nothing
+//@   ensures one_of_the_two_records_unmixed: result == first || result == second
+//@   ensures the_one_that_reaches_furthest: result.Offset >= first.Offset && result.Offset >= second.Offset
+//@   ensures the_current_ids_record_on_a_tie: first.Offset == second.Offset ==> result == first
